@@ -39,6 +39,7 @@
 //! ```
 
 #![cfg_attr(docsrs, feature(doc_cfg))]
+#![cfg_attr(kani, feature(allocator_api))]
 #![cfg_attr(not(any(test, doctest, feature = "std")), no_std)]
 
 extern crate alloc;
@@ -53,6 +54,10 @@ pub mod sync;
 pub mod testing;
 pub(crate) mod util;
 pub mod vm_policy;
+
+#[cfg(kani)]
+#[path = "/verif/kani/aranya-runtime/mocks.rs"]
+pub(crate) mod verif_mocks;
 
 pub use crate::{
     client::*, command::*, policy::*, prior::Prior, storage::*, sync::*, vm_policy::*,
